@@ -169,7 +169,7 @@ def build(variant="plain", quiet=True, extra_key=""):
                 continue
             o = os.path.join(out, "obj", s.replace("/", "_")[:-2] + ".o")
             d = list(defs)
-            if hashbits and s.endswith("lib/util/src/xxhash.c"):
+            if hashbits is not None and s.endswith("lib/util/src/xxhash.c"):
                 d.append("-Dxxh32=xxh32_real")
             jobs[s] = (o, d)
             libobjs.append(o)
@@ -200,7 +200,7 @@ def build(variant="plain", quiet=True, extra_key=""):
     if bad:
         sys.stderr.write("BUILD FAILED (%s):\n%s\n" % (variant, bad[0][2][:4000]))
         raise SystemExit(2)
-    if hashbits:
+    if hashbits is not None:
         wsrc = os.path.join(out, "obj", "hashwrap.c")
         open(wsrc, "w").write(HASH_WRAP)
         o = wsrc[:-2] + ".o"
